@@ -499,6 +499,96 @@ pub fn run(rep: &'static Report) {
         rep.nontrivial(b"long-repetition");
     }
 
+    // the same operations on several FRESH threads at once: whatever the interleaving, values drawn on different
+    // threads must differ too (a per-thread generator state seeded identically would replay one stream on every thread)
+    {
+        let nthreads = 4usize;
+        let rounds = 3usize;
+        let fxa = Arc::new(Fixture::new(seed));
+        let mut handles = vec![];
+        for t in 0..nthreads {
+            let fx = fxa.clone();
+            handles.push(std::thread::spawn(move || -> Result<Vec<(String, Vec<u8>)>, String> {
+                let mut out = vec![];
+                for round in 0..rounds {
+                    for op in [Op::LibGenerate, Op::LibKeyEncrypt] {
+                        for (k, v) in exec(&fx, op)? {
+                            out.push((format!("thread {} round {} {:?}: {}", t, round, op, k), v));
+                        }
+                    }
+                    match guarded(|| kestrel_crypto::secure_random(32)) {
+                        Ok(v) => out.push((format!("thread {} round {} secure_random(32)", t, round), v)),
+                        Err(m) => return Err(format!("secure_random panicked: {}", m)),
+                    }
+                }
+                Ok(out)
+            }));
+        }
+        let mut all: Vec<(String, Vec<u8>)> = vec![];
+        for h in handles {
+            match h.join() {
+                Ok(Ok(v)) => all.extend(v),
+                Ok(Err(e)) => rep.violation("threads/op-failed", json!({"kind":"threads"}), e),
+                Err(_) => rep.violation("threads/op-failed", json!({"kind":"threads"}), "worker thread panicked".into()),
+            }
+        }
+        rep.eval(all.len() as u64);
+        let mut seen: std::collections::HashMap<Vec<u8>, String> = std::collections::HashMap::new();
+        for (label, v) in &all {
+            if let Some(prev) = seen.insert(v.clone(), label.clone()) {
+                rep.violation("threads/value-repeats-across-threads", json!({"kind":"threads"}), format!("two draws share a value: [{}] == [{}] = {}", prev, label, hx(v)));
+                break;
+            }
+        }
+        rep.extra("fresh_threads", json!({"threads":nthreads,"rounds":rounds,"fresh_values_compared":all.len()}));
+        rep.nontrivial(b"fresh-threads");
+    }
+    // several keys generated INTO ONE keyring file (the append path), three under the same password, one under another:
+    // every PrivateKey line has its own salt and its own private key
+    {
+        let attempt = || -> Result<usize, String> {
+            let sc = Scratch::new();
+            let mut pws = vec![];
+            for (name, pw) in [("a", "same-pw"), ("b", "same-pw"), ("c", "same-pw"), ("d", "other-pw")] {
+                let out = proc::run(&Cmd::new(&["key", "generate", "-o", "ring.txt", "--env-pass"]).env("KESTREL_PASSWORD", pw).stdin(format!("{}\n", name).as_bytes()), &sc.0);
+                if !out.ok() {
+                    return Err(format!("key generate (append) failed: {}", out.summary()));
+                }
+                pws.push(pw);
+            }
+            let txt = String::from_utf8_lossy(&sc.read("ring.txt").unwrap_or_default()).to_string();
+            let locked: Vec<String> = txt.lines().filter_map(|l| l.strip_prefix("PrivateKey = ")).map(|x| x.trim().to_string()).collect();
+            if locked.len() != 4 {
+                return Err(format!("expected 4 PrivateKey lines in the keyring, found {}", locked.len()));
+            }
+            let mut vals: Vec<(String, Vec<u8>)> = vec![];
+            for (i, l) in locked.iter().enumerate() {
+                let blob = r::b64_decode(l).ok_or("PrivateKey not base64")?;
+                if blob.len() != 84 {
+                    return Err("locked key has the wrong length".into());
+                }
+                vals.push((format!("salt of key {}", i + 1), blob[4..36].to_vec()));
+                let sk = r::unlock_key(&blob, pws[i].as_bytes()).ok_or(format!("key {} does not unlock under its own password (REF)", i + 1))?;
+                vals.push((format!("private key {}", i + 1), sk.to_vec()));
+            }
+            for i in 0..vals.len() {
+                for j in 0..i {
+                    if vals[i].1 == vals[j].1 {
+                        return Err(format!("keys generated into one keyring share a value: [{}] == [{}] = {}", vals[j].0, vals[i].0, hx(&vals[i].1)));
+                    }
+                }
+            }
+            Ok(vals.len())
+        };
+        rep.eval(1);
+        rep.nontrivial(b"keyring-append-salts");
+        if attempt().is_err() {
+            if let Err(e) = attempt() {
+                rep.violation("append/salt-or-key-reused", json!({"kind":"append"}), e);
+            }
+        }
+    }
+
     seam_check(rep, &ctx.fx);
     rng_fault_sweep(rep, &ctx.fx);
 
@@ -599,6 +689,10 @@ pub fn replay(rep: &'static Report, case: &Value) {
         }
         "seam" => seam_check(rep, &Fixture::new(rep.seed)),
         "rngfault" => rng_fault_sweep(rep, &Fixture::new(rep.seed)),
+        "threads" | "append" | "repetition" => {
+            println!("  re-running C07");
+            run(rep);
+        }
         "repetition" => {
             println!("  re-running C07 (the repetition part is deterministic in its verdict)");
             run(rep);
